@@ -155,8 +155,8 @@ impl Model {
         if let Some(e) = self.get_cached(ty, id) {
             return e.show;
         }
-        let dynamic = ty.hot() && self.hot;
-        self.cache.insert((ty, id.to_string()), MEntry { show: show.to_string(), reload: 0, dynamic });
+        // a value added with get_or_insert is never reloaded (C10), whatever its type
+        self.cache.insert((ty, id.to_string()), MEntry { show: show.to_string(), reload: 0, dynamic: false });
         show.to_string()
     }
     pub fn remove(&mut self, ty: Ty, id: &str) -> Option<MEntry> {
